@@ -74,6 +74,7 @@ Data makeData(const Problem & pb, int p)
   MatD u = randomOrthonormal(r, p, p), v = randomOrthonormal(r, p, p);
   VecD dd(p); for (int k = 0; k < p; ++k) {dd(k) = r.uniform(0.5, 2);}
   d.A = u * dd.asDiagonal() * v.transpose();
+  if (r.chance(0.25)) {d.A = MatD::Identity(p, p);}   // a pure re-centring preconditioner: x = x0 + b
   d.b.resize(p); for (int k = 0; k < p; ++k) {d.b(k) = r.uniform(-3, 3);}
   return d;
 }
